@@ -10,3 +10,23 @@ package fixedpoint
 //@ func UFix128ToBigInt
 //@   nofail
 //@   ensures[C16] fresh(result) && big(result) == value.Hi * pow2(64) + value.Lo
+
+// ---- C40 (and the fromString parsers of C17): the fractional digits of a literal at the type's scale
+//@ func ScaleFractional
+//@   requires fractional != nil && targetScale <= 24
+//@   nofail
+//@   ensures[C40] result != nil && big(result) == ite(scale < targetScale, big(fractional) * pow10n(targetScale - scale), big(fractional))
+// value = +-(integer + fractional/F) with 0 <= fractional < F (F = 10^scale of the type, a ghost); the bounds are
+// minInt -/+ minFractional/F and maxInt + maxFractional/F with minFractional a magnitude (call sites: minInt <= 0 < maxInt).
+// A negative literal is rejected for a type whose minimum is 0.
+//@ func CheckRange
+//@   ghost F mathint
+//@   requires unsignedIntegerValue != nil && fractionalValue != nil && minInt != nil && minFractional != nil && maxInt != nil && maxFractional != nil
+//@   requires F > 0 && big(unsignedIntegerValue) >= 0 && 0 <= big(fractionalValue) && big(fractionalValue) < F
+//@   requires 0 <= big(minFractional) && big(minFractional) < F && 0 <= big(maxFractional) && big(maxFractional) < F
+//@   requires big(minInt) <= 0 && big(maxInt) > 0 && (big(minInt) == 0 ==> big(minFractional) == 0)
+//@   let v = ite(negative, -1, 1) * (big(unsignedIntegerValue) * F + big(fractionalValue))
+//@   let lo = big(minInt) * F - big(minFractional)
+//@   let hi = big(maxInt) * F + big(maxFractional)
+//@   nofail
+//@   ensures[C40] iff(result, !(negative && big(minInt) == 0) && lo <= v && v <= hi)
